@@ -1,4 +1,121 @@
-import StrumModel
+import StrumProofs.Lemmas.NamesGen
+/-
+C03 — all string-producing derives agree on one canonical name per variant.
+-/
 namespace Strum
-theorem c03_placeholder : True := trivial
+
+/-- the longest serialize literal (bytes); `none` when there is none.  Characterised, not computed:
+    see `longest_spec`. -/
+def longestSerialize (v : Variant) : Option Bytes := maxByKeyLast List.length v.serialize
+
+/-- **Spec.** to_string literal, else longest serialize literal, else styled identifier; prefix prepended. -/
+def canonical (d : EnumDef) (v : Variant) : Bytes :=
+  (d.pfx.getD []) ++ (v.toStr.getD ((longestSerialize v).getD (convertCase d.style v.ident)))
+
+/-- the chosen serialize literal is one of them and none is longer; with distinct lengths it is the
+    unique longest (ties go to the last one, as in Rust's `max_by_key`) -/
+theorem longest_spec (v : Variant) (x : Bytes) (h : longestSerialize v = some x) :
+    x ∈ v.serialize ∧ ∀ y ∈ v.serialize, y.length ≤ x.length :=
+  maxByKeyLast_spec List.length v.serialize x h
+
+theorem longest_unique (v : Variant) (x : Bytes) (h : longestSerialize v = some x)
+    (y : Bytes) (hy : y ∈ v.serialize) (hl : x.length ≤ y.length)
+    (hd : ∀ a ∈ v.serialize, ∀ b ∈ v.serialize, a.length = b.length → a = b) : y = x := by
+  obtain ⟨hx, hmax⟩ := longest_spec v x h
+  exact hd y hy x hx (Nat.le_antisymm (hmax y hy) hl)
+
+theorem longest_none_iff (v : Variant) : longestSerialize v = none ↔ v.serialize = [] :=
+  maxByKeyLast_none _ _
+
+/-- `get_preferred_name(case_style, prefix)` computes the canonical name -/
+theorem preferredName_eq_canonical (d : EnumDef) (v : Variant) :
+    preferredName d.style d.pfx v = canonical d v := by
+  unfold preferredName canonical longestSerialize identAsStr
+  cases d.pfx <;> cases v.toStr <;> cases maxByKeyLast List.length v.serialize <;> simp
+
+/-- a name without placeholders: the macro's scanner finds no `{..}` -/
+def NoPlaceholder (name : Bytes) : Prop := captureFormatStrings name = .ok []
+
+theorem displayArm_fixed (d : EnumDef) (v : Variant) (ht : v.transparent = false)
+    (hd : v.isDefault = false) (hb : NoPlaceholder (canonical d v)) :
+    displayArm d v = .ok (.fixed (canonical d v)) := by
+  unfold displayArm
+  unfold NoPlaceholder at hb
+  rw [preferredName_eq_canonical]
+  simp only [ht, hd, Bool.false_eq_true, ↓reduceIte, Bool.and_false, hb]
+  cases v.fields <;> simp
+
+theorem asRefArm_fixed (d : EnumDef) (v : Variant) (ht : v.transparent = false) :
+    asRefArm d v = .ok (.fixed (canonical d v)) := by
+  unfold asRefArm
+  simp [ht, preferredName_eq_canonical]
+
+theorem toStringArm_fixed (d : EnumDef) (v : Variant) (hd : v.isDefault = false) :
+    toStringArm d v = .ok (.fixed (canonical d v)) := by
+  unfold toStringArm
+  simp [hd, preferredName_eq_canonical]
+
+/-- **All derives agree.**  For every enabled variant that is neither default nor transparent and
+    whose name has no placeholder, each string-producing derive that compiles returns exactly the
+    canonical name (Display with an empty format spec; C17 covers non-empty specs). -/
+theorem all_derives_agree (d : EnumDef) (hid : (d.variants.map (·.ident)).Nodup)
+    (v : Variant) (hv : v ∈ d.variants) (hen : v.disabled = false)
+    (ht : v.transparent = false) (hd : v.isDefault = false) (hb : NoPlaceholder (canonical d v))
+    (dv : NameDerive) (arms : List (Bytes × NameArm)) (hg : genNames d dv = .ok arms)
+    (inner : FmtSpec → Bytes) :
+    showWith (lookupArm arms v.ident) inner false {} = .text (canonical d v) ∧
+    (dv = .display → showWith (lookupArm arms v.ident) inner true {} = .text (canonical d v)) := by
+  obtain ⟨a, ha, hl⟩ := genNames_lookup d dv arms hg hid v hv hen
+  have hfix : a = .fixed (canonical d v) := by
+    cases dv <;> simp only [armOf] at ha
+    · rw [displayArm_fixed d v ht hd hb] at ha; cases ha; rfl
+    all_goals first
+      | (rw [asRefArm_fixed d v ht] at ha; cases ha; rfl)
+      | (rw [toStringArm_fixed d v hd] at ha; cases ha; rfl)
+  subst hfix
+  rw [hl]
+  refine ⟨rfl, fun _ => ?_⟩
+  simp [showWith, pad, truncTo]
+
+/-- each derive's output function, as the driver computes it -/
+theorem strOut_canonical (d : EnumDef) (hid : (d.variants.map (·.ident)).Nodup)
+    (v : Variant) (hv : v ∈ d.variants) (hen : v.disabled = false)
+    (ht : v.transparent = false) (hd : v.isDefault = false) (hb : NoPlaceholder (canonical d v))
+    (dv : NameDerive) (inner : Bytes) (o : ShowOut) (h : strOut d dv v inner = .ok o) :
+    o = .text (canonical d v) := by
+  unfold strOut at h
+  cases hg : genNames d dv with
+  | error e => simp [hg, Except.map] at h
+  | ok arms =>
+    simp only [hg, Except.map, Except.ok.injEq] at h
+    rw [← h]
+    exact (all_derives_agree d hid v hv hen ht hd hb dv arms hg _).1
+
+theorem displayOut_canonical (d : EnumDef) (hid : (d.variants.map (·.ident)).Nodup)
+    (v : Variant) (hv : v ∈ d.variants) (hen : v.disabled = false)
+    (ht : v.transparent = false) (hd : v.isDefault = false) (hb : NoPlaceholder (canonical d v))
+    (inner : FmtSpec → Bytes) (o : ShowOut) (h : displayOut d v inner {} = .ok o) :
+    o = .text (canonical d v) := by
+  unfold displayOut at h
+  cases hg : genNames d .display with
+  | error e => simp [hg, Except.map] at h
+  | ok arms =>
+    simp only [hg, Except.map, Except.ok.injEq] at h
+    rw [← h]
+    exact (all_derives_agree d hid v hv hen ht hd hb .display arms hg _).2 rfl
+
+/-- **`VariantNames::VARIANTS[i]` is the canonical name of the i-th declared variant** (enabled or not). -/
+theorem variant_names_at (d : EnumDef) (i : Nat) (h : i < d.variants.length) :
+    (variantNames d)[i]'(by simpa [variantNames] using h) = canonical d d.variants[i] := by
+  simp [variantNames, preferredName_eq_canonical]
+
+theorem variant_names_length (d : EnumDef) : (variantNames d).length = d.variants.length := by
+  simp [variantNames]
+
+/-! non-vacuity -/
+example : NoPlaceholder [82, 101, 100] := by unfold NoPlaceholder; rfl
+example : canonical { pfx := some [112], style := some .snake }
+    { ident := [82, 101, 100], serialize := [[97], [98, 98, 98], [99, 99]] } = [112, 98, 98, 98] := by decide
+example : longestSerialize { ident := [], serialize := [[97, 97], [98, 98]] } = some [98, 98] := by decide
+
 end Strum
